@@ -122,7 +122,7 @@ impl Curve {
     pub fn extrapolate(&mut self, n: usize) {
         // We need at least three samples to extrapolate, so let's do nothing if we have fewer.
         if self.wcet_of_n_jobs.len() >= 3 {
-            while self.wcet_of_n_jobs.len() < n - 1 {
+            while self.wcet_of_n_jobs.len() + 1 < n {
                 #[cfg(feature = "verif")]
                 crate::verif_hooks::tick("wcet::Curve::extrapolate");
                 self.wcet_of_n_jobs.push(self.extrapolate_next())
